@@ -3,7 +3,7 @@
    Proofs/Match{Recipients,Semantics,History,Tokenize,Parse}.v.  Model:
    Match/{Rule,Matcher,Bus}.v; specification: Spec/MatchSpec.v. *)
 From DV Require Import Lib.Base Match.Rule Match.Matcher Match.Bus Spec.MatchSpec
-  Proofs.MatchRecipients Proofs.MatchSemantics Proofs.MatchHistory Proofs.MatchTokenize.
+  Proofs.MatchRecipients Proofs.MatchSemantics Proofs.MatchHistory Proofs.MatchTokenize Proofs.MatchParse.
 Local Open Scope N_scope.
 
 (* witnesses (ASCII) *)
@@ -153,6 +153,32 @@ Theorem C07_tokenize_partial : forall s ts e, no_nul s -> bs_sensitive SItemStar
 Proof. exact tokenize_agrees. Qed.
 Print Assumptions C07_tokenize_partial.
 
+(* the per-key checks on an item list: accepted exactly when the specification accepts it, and the rule
+   built stands for exactly the specified constraints.  In scope: argument keys written as plain decimal
+   numbers, sender / destination / arg0namespace values that are not malformed unique names (C16/F2). *)
+Theorem C07_parse_items : forall c ts, forallb item_in_scope ts = true ->
+  match parse_tokens (empty_rule c) ts with
+  | Some r => items_ok ts = true /\ srule_eqb (abs_rule r) (mkSRule c (eaves_of ts false) (constraints_of ts)) = true
+  | None => items_ok ts = false
+  end.
+Proof. exact parse_tokens_spec. Qed.
+Print Assumptions C07_parse_items.
+
+(* the full statement holds for every text outside the known classes: no item beginning with '=' (F5),
+   fewer than MAX_RULE_TOKENS items (F5), no unquoted backslash before ',' or '\' (C07-N2), plain argument
+   keys (C07-N1), no malformed unique names (F2) *)
+Theorem C07_parse_partial : forall c s ts e,
+  no_nul s -> bs_sensitive SItemStart s = false ->
+  spec_tokens s = (ts, e) -> e <> SEmptyKey -> (length ts < MAX_RULE_TOKENS)%nat ->
+  forallb item_in_scope ts = true ->
+  match parse_rule c s, spec_parse c s with
+  | POk r, SPOk sr => srule_eqb (abs_rule r) sr = true
+  | PInvalid, SPInvalid | PLimits, SPLimits => True
+  | _, _ => False
+  end.
+Proof. exact parse_rule_spec. Qed.
+Print Assumptions C07_parse_partial.
+
 Theorem C07_parse_refuted : ~ C07_parse_full_statement.
 Proof.
   intros H. specialize (H 1 T_eq_x).
@@ -185,6 +211,12 @@ Theorem C07_parse_refuted_arg_key :
 Proof. vm_compute. repeat split. Qed.
 Print Assumptions C07_parse_refuted_arg_key.
 
+Definition T_sender_colon : bytes := [115;101;110;100;101;114;61;39;58;39].      (* sender=':' *)
+Theorem C07_parse_refuted_unique_name :
+  parse_rule 1 T_sender_colon <> PInvalid /\ spec_parse 1 T_sender_colon = SPInvalid.
+Proof. split; vm_compute; [discriminate | reflexivity]. Qed.
+Print Assumptions C07_parse_refuted_unique_name.
+
 (* ===== non-vacuity =================================================================================================== *)
 Example ex_parse_ok : match parse_rule 1 T_good with POk r => rule_ok r /\ no_empty_argpath r | _ => False end.
 Proof.
@@ -204,5 +236,9 @@ Proof.
   exists (fst (handle_add_match 512 true (fst (handle_add_match 512 true [] 1 T_good)) 1 T_good)).
   split; [apply reach_add, reach_add, reach_empty|]. vm_compute. split; [discriminate | reflexivity].
 Qed.
-Example ex_tokenize_hyp : no_nul T_good /\ bs_sensitive SItemStart T_good = false /\ snd (spec_tokens T_good) = SEndOk.
-Proof. split; [repeat constructor; discriminate | split; vm_compute; reflexivity]. Qed.
+Example ex_tokenize_hyp : no_nul T_good /\ bs_sensitive SItemStart T_good = false /\ snd (spec_tokens T_good) = SEndOk /\
+  (length (fst (spec_tokens T_good)) < MAX_RULE_TOKENS)%nat /\ forallb item_in_scope (fst (spec_tokens T_good)) = true.
+Proof.
+  split; [repeat constructor; discriminate|]. split; [vm_compute; reflexivity|]. split; [vm_compute; reflexivity|].
+  split; [vm_compute; repeat constructor | vm_compute; reflexivity].
+Qed.
